@@ -112,6 +112,10 @@ def run(name, props, scratch=True):
     finally:
         sh("git -C %s checkout -- ." % target)
     meta.setdefault("checks_run", {}).update(results)
+    commit = subprocess.check_output("git -C %s rev-parse --short HEAD" % V, shell=True, text=True).strip()
+    for p, r in results.items():
+        meta.setdefault("run_log", []).append({"property": p, "detected": r["detected"], "with_failing_input": r["with_failing_input"],
+                                               "verif_commit": commit, "time": time.strftime("%Y-%m-%d %H:%M")})
     json.dump(meta, open(os.path.join(dst, "meta.json"), "w"), indent=1)
     return 0
 
